@@ -8,6 +8,7 @@ import GoZero.C19.Lua
 import GoZero.C19.Proofs
 import GoZero.C19.Ids
 import GoZero.C19.Outcomes
+import GoZero.C19.CmdTrace
 namespace GoZero.C19.Tie
 open GoZero.C19
 open GoZero.C19.Lua
@@ -393,5 +394,20 @@ theorem tie_initBody : initBody = ["rand.NewSource(time.Now().UnixNano())"] := b
 
 example : (goHanded (.reply (.bulk "ok"))).app acquireDecide = (false, false) ∧
     (goHanded .nilNoErr).app releaseDecide = (false, false) := by decide
+
+/-! ### Round 5c: the table of calls of redislock.go -/
+
+def rowOf (t : String × List (Bool × String) × Nat × String × List String) : Row :=
+  ⟨t.1, t.2.1, t.2.2.1, t.2.2.2.1, t.2.2.2.2⟩
+
+/-- **every call of redislock.go that is not pure — per function and per branch — is what the model was written
+against**: one unconditional `rl.store.ScriptRunCtx(ctx, lockScript | delScript, []string{rl.key}, …)` in
+AcquireCtx / ReleaseCtx, the wrappers delegate, no call on `rl.store` under any condition, no helper method -/
+theorem tie_callTable : callTable.map rowOf = realRows := by decide
+
+/-- **the command-trace theorems speak about the table of the tree**: interpreted from either entry point it is `realG` -/
+theorem tie_command_trace (cfg : Nat → LockCfg) (call : Call) (wrapper : Bool) :
+    progOfRows (callTable.map rowOf) wrapper (cfg (callInst call)) call = some (realG cfg call) := by
+  rw [tie_callTable]; cases call <;> cases wrapper <;> rfl
 
 end GoZero.C19.Tie
